@@ -155,6 +155,12 @@ def gen_cases(tier):
     if tier == "quick":
         for f in itertools.islice(mid.iter_forests(3), 0, None, 5):
             yield dict(fam="tree", f=f, pal=pal, variant=1)
+    # deeper trees reached through an edit history: a non-leaf child whose node index is LOWER than its parent's
+    from ..sysmodel import SIG_DEEP
+    deep = Trees(*SIG_DEEP)
+    for n in ((3, 4) if tier == "quick" else (3, 4, 5)):
+        for f in deep.iter_forests(n):
+            yield dict(fam="tree", f=f, pal=pal, variant=2, pol=1, holes=True)
     for k in (2, 3):
         for inputs in itertools.product(INPUT_OPTS[::2] if (k == 3 or tier == "quick") else INPUT_OPTS, repeat=k):
             for order in itertools.permutations(range(k)):
